@@ -63,3 +63,94 @@ def rule(ctx, rule_id, what="reading a program or library file"):
         ctx.report(rule_id, "%s/io-error-dropped" % f.name.split("::{closure")[0], "an I/O error of %s is dropped in %s: %s; the failure must come back "
                    "as an error (diagnostic and non-zero status), not as a silently shortened text" % (what, f.name, why), where_of(f, t))
     return True
+
+
+# ------------------------------------------------------------------------------------------------ the text handed to the reader
+
+
+def _rust_lines(text):
+    """std's BufRead::lines: split after every '\\n', the terminator ('\\n' or '\\r\\n') removed"""
+    parts = text.split("\n")
+    if parts and parts[-1] == "":
+        parts.pop()
+    return [p[:-1] if p.endswith("\r") else p for p in parts]
+
+
+STREAM_TEXTS = (
+    ("lf", "(a)\n(b)\n"), ("crlf", "(a)\r\n(b)\r\n"), ("lf/no-final-newline", "(a)\n(b)"), ("crlf/no-final-newline", "(a)\r\n(b)"),
+    ("empty", ""), ("blank-lines", "\n\n(x)\n"), ("crlf/blank-lines", "\r\n\r\n(x)\r\n"), ("indent-and-tab", "  (a\n\t b)\n"),
+    ("non-ascii", "(λ \"é\")\n"), ("one-line", "(a)"), ("comment-last", "(a) ; c"),
+)
+
+
+def stream_table(fb, fname="io::file_char_stream"):
+    """the characters `file_char_stream` yields for a file with a given text: abstract run with the file system calls answered from
+    the text (File::open + BufReader + lines(), fs::read_to_string); anything else it may use is not modelled -> stuck"""
+    from . import machine, absint
+    from .machine import Machine, NOT, ok
+    f = fb.find(fname)
+    rows = []
+    for label, text in STREAM_TEXTS:
+        ft = object()
+
+        def icpt(mc, c, a, tt, g, text=text, ft=ft):
+            if c.endswith("fs::File::open"):
+                return ok(ft)
+            if (c.endswith("BufReader::new") or c.endswith("BufReader::<R>::new")) and a and a[0] is ft:
+                return ft
+            if c.endswith("BufRead::lines") and a and a[0] is ft:
+                return machine.Iter([ok(l) for l in _rust_lines(text)])
+            if c.endswith("fs::read_to_string"):
+                return ok(text)
+            return NOT
+        mc = Machine(fb, intercept=icpt, max_visits=max(40, 2 * len(text) + 8), budget=4000)
+        try:
+            r = mc.run(f, [absint.UNKNOWN])
+        except (absint.Stuck, absint.Loop) as e:
+            rows.append((label, text, {"stuck": str(e)}))
+            continue
+        out = None
+        if isinstance(r, absint.Enum) and r.variant == 0 and r.fields:
+            it = r.fields[0]
+            try:
+                items = it.rest() if isinstance(it, machine.Iter) else (mc.drain(it) if hasattr(mc, "drain") and not isinstance(it, list) else it)
+            except (absint.Stuck, absint.Loop) as e:
+                rows.append((label, text, {"stuck": str(e)}))
+                continue
+            if isinstance(items, list) and all(isinstance(x, int) and not isinstance(x, bool) for x in items):
+                out = "".join(chr(x) for x in items)
+        if out is None:
+            rows.append((label, text, {"stuck": "the result is not Ok(a stream of known characters): %r" % (r,)}))
+        else:
+            rows.append((label, text, {"stream": out}))
+    return f, rows
+
+
+def rule_stream(ctx, rule_id):
+    """the reader is handed the file's text: the same characters in the same order, line ends kept or CRLF folded to LF, at most one
+    newline added at the very end — so every form sits on the line it has in the file and nothing is dropped or doubled"""
+    fb = ctx.fb()
+    from .ctx import where_of
+    try:
+        f, rows = stream_table(fb)
+    except mir.AnchorMissing as e:
+        ctx.undecided(rule_id, "file-text", str(e))
+        return 0
+    decided = 0
+    for label, text, d in rows:
+        key = "file-text/%s" % label
+        if "stuck" in d:
+            ctx.undecided(rule_id, key, "cannot follow file_char_stream on a file holding %r (%s)" % (text, d["stuck"]), where_of(f))
+            continue
+        folded = text.replace("\r\n", "\n")
+        good = {text, folded}
+        good |= {t + "\n" for t in list(good) if t and not t.endswith("\n")}
+        decided += 1
+        okk = d["stream"] in good
+        ctx.inst(rule_id, key, {"file": text, "stream": d["stream"], "same_text": okk})
+        ctx.oblige(okk)
+        if not okk:
+            ctx.report(rule_id, key, "a file holding %r is handed to the reader as %r: not the file's text (line ends kept or CRLF folded to "
+                       "LF, at most a final newline added) — lines are doubled, dropped or changed, so diagnostics name other lines and "
+                       "multi-line strings differ from the same text evaluated through the library" % (text, d["stream"]), where_of(f))
+    return decided
